@@ -392,6 +392,46 @@ func (w *world) clientWith0(v *signature.Verifier, b *bundle.Bundle, t time.Time
 			}
 		}
 	}
+	if len(heldResults) > 0 && c.Chance("consumeAndVerifyAgain", 1, 3) {
+		// the caller consumes (overwrites) the payloads it was handed, then verifies the
+		// same exchanges again with the same Verifier: same verdicts, same payloads
+		for i := range heldResults {
+			h := &heldResults[i]
+			if c.Oracle("C06") && !bytes.Equal(h.payload, h.want) {
+				c.Violation("result-changed-later", "Verifier.VerifyExchange", "the verified payload returned for %q was modified by later VerifyExchange calls (%s)", h.url, what)
+			}
+			for j := range h.payload {
+				h.payload[j] ^= 0x5a
+			}
+			h.want = append([]byte(nil), h.payload...)
+		}
+		again := 0
+		for _, e := range b.Exchanges {
+			var r *signature.VerifyExchangeResult
+			var verr error
+			if pi, _ := c.GuardAlloc("Verifier.VerifyExchange", func() { r, verr = v.VerifyExchange(e) }); pi != nil {
+				if c.Oracle("C10", "C06") {
+					c.CheckTotal("Verifier.VerifyExchange", len(w.file), pi, 0)
+				}
+				continue
+			}
+			if verr != nil || r == nil {
+				continue
+			}
+			again++
+			u := ""
+			if e.Request.URL != nil {
+				u = e.Request.URL.String()
+			}
+			if vo, covered := w.vouched[u]; c.Oracle("C06") && (!covered || !bytes.Equal(r.VerifiedPayload, vo.body)) {
+				c.Violation("accepted-altered-content", "Verifier.VerifyExchange/again", "exchange %q, verified a second time after the caller had overwritten the first result, yields content its signer did not vouch for (%s)", u, what)
+			}
+		}
+		if c.Oracle("C06") && again != res.accepted {
+			c.Violation("verdict-changed", "Verifier.VerifyExchange/again", "%d exchanges verified the first time, %d the second time (%s)", res.accepted, again, what)
+		}
+		c.Probe("results overwritten by the caller, exchanges verified again")
+	}
 	return res, vout
 }
 
@@ -732,7 +772,7 @@ func (w *world) byzantine(c *core.Ctx, b *bundle.Bundle, class string) string {
 			e.Response.Header[k] = []string{e.Response.Header[k][0] + "x"}
 		}
 	case "header-add":
-		e.Response.Header.Add("X-Injected", "evil")
+		e.Response.Header.Add(c.PickDict("field.newhdr", []string{"X-Injected", "Signature", "Content-Length"}, core.HeaderNameRe), "evil")
 	case "header-remove":
 		ks := core.SortedKeys(map[string][]string(e.Response.Header))
 		if len(ks) > 0 {
